@@ -293,3 +293,4 @@ PROPS["C17"]["rule"] += "; kmer_laws: the derived codecs of the laws set through
 # round 8
 PROPS["C01"]["rule"] += "; Utf8Mix: an ASCII rejected byte and a multi-byte UTF-8 character (or two different ones) at every position pair, both orders, text entry points against the byte entry point"
 PROPS["C02"]["rule"] += "; variants flipping the same bit pattern in several machine words at once (every symbol; one symbol per word in all/two/three/alternate words); containers use a fixed-key hasher state"
+PROPS["C12"]["rule"] += "; ContainsMulti: operands of 2-5 machine words with the same (pattern, argument) symbol pair at one position of two, three, alternate or all words, or at every position"
